@@ -184,7 +184,8 @@ _JOB = {}
 
 
 def _worker(wid):
-    (nw, gen, check, chunk, cpu_ms, deadline, state_of) = _JOB["args"]
+    (nw, gen, check, chunk, cpu_ms, deadline, state_of, collect) = _JOB["args"]
+    collected = {}
     stats = dict(evaluations=0, transitions=0, nontrivial=0, capped=False)
     digests = set()
     viols = {}
@@ -209,6 +210,11 @@ def _worker(wid):
                 vs, nontriv = [Violation("oracle-exception:" + type(e).__name__, traceback.format_exc()[-1500:], c)], False
             if nontriv:
                 stats["nontrivial"] += 1
+            if collect:
+                for key, payload in collect(c, r):
+                    old = collected.get(key)
+                    if old is None or _order(payload) < _order(old):
+                        collected[key] = payload
             for v in vs:
                 e = viols.setdefault(v.key, {"count": 0, "first": None})
                 e["count"] += 1
@@ -232,7 +238,13 @@ def _worker(wid):
     if buf and not stats["capped"]:
         flush()
     stats["generated"] = idx
+    stats["collected"] = collected
     return (stats, digests, viols, samples)
+
+
+def _order(payload):
+    r = repr(payload)
+    return (len(r), r)
 
 
 def _trim(r, n=600):
@@ -252,6 +264,7 @@ class Result:
         self.samples = []
         self.capped = False
         self.parts = []
+        self.collected = {}
 
     def merge(self, other):
         self.evaluations += other.evaluations
@@ -268,7 +281,7 @@ class Result:
         self.parts += other.parts
 
 
-def explore(name, gen, check, chunk=300, cpu_ms=2000, deadline=None, state_of=None, nworkers=None):
+def explore(name, gen, check, chunk=300, cpu_ms=2000, deadline=None, state_of=None, nworkers=None, collect=None):
     """Run every case of gen() (a deterministic generator function) through the driver on all cores.
 
     check(case, result) -> (list of Violation, nontrivial: bool)
@@ -277,7 +290,7 @@ def explore(name, gen, check, chunk=300, cpu_ms=2000, deadline=None, state_of=No
     nw = nworkers or NWORK
     t0 = time.time()
     ctx = multiprocessing.get_context("fork")
-    _JOB["args"] = (nw, gen, check, chunk, cpu_ms, deadline, state_of)
+    _JOB["args"] = (nw, gen, check, chunk, cpu_ms, deadline, state_of, collect)
     args = list(range(nw))
     res = Result()
     with ctx.Pool(nw) as pool:
@@ -287,6 +300,10 @@ def explore(name, gen, check, chunk=300, cpu_ms=2000, deadline=None, state_of=No
             res.nontrivial += stats["nontrivial"]
             res.capped = res.capped or stats["capped"]
             res.digests |= digests
+            for key, payload in stats.get("collected", {}).items():
+                old = res.collected.get(key)
+                if old is None or _order(payload) < _order(old):
+                    res.collected[key] = payload
             for k, e in viols.items():
                 m = res.viols.setdefault(k, {"count": 0, "first": None})
                 m["count"] += e["count"]
@@ -360,6 +377,8 @@ def finish(prop, tier, res, check, rule, t0, exhaustive=True, extra=None, assump
     outbase = VERIF if build.REPO == "/repo" else build.BUILD   # runs against a scratch copy never touch /verif's evidence
     os.makedirs(os.path.join(outbase, "evidence"), exist_ok=True)
     rdir = os.path.join(outbase, "replays", prop)
+    import shutil
+    shutil.rmtree(rdir, ignore_errors=True)
     lines = []
     for key, n, desc in knownhit:
         lines.append("KNOWN-FINDING: property=%s %s [%s] (%d case(s) this run)" % (prop, desc, key, n))
